@@ -86,6 +86,7 @@ def freshOut (s : Script) (oc k j pos : Nat) : Val :=
     else ⟨cTE, 0⟩
   else if oc == cUnus then ⟨cUnus, 0⟩
   else if oc == cDebug then ⟨cDebug, 0⟩
+  else if (oc == 10 || oc == 11) && (s.idx + k) % 4 == 3 then ⟨oc, 0⟩   -- now and then a nil interface value
   else ⟨dynCode oc, freshTag s.idx k j pos⟩
 
 def enumFrom' {α} (l : List α) : List (Nat × α) := (List.range l.length).zip l
